@@ -1,4 +1,5 @@
 import Dcg.Proofs.Enum
+import Dcg.Proofs.EnumSites
 import Dcg.Props.C07
 import Dcg.Props.C10
 /-
@@ -12,7 +13,7 @@ JSON values, `x-enum-varnames`), `cfg` the resolver options, `E` the case maps (
 -/
 namespace Dcg.Props.C09
 open Dcg.Py.Ident Dcg.Model.Names Dcg.Model.Enum Dcg.Model.Escape Dcg.Gen.EscTables
-open Dcg.Proofs.Names Dcg.Proofs.Enum
+open Dcg.Proofs.Names Dcg.Proofs.Enum Dcg.Proofs.EnumSites
 
 /-! ### values -/
 
@@ -33,7 +34,7 @@ theorem enum_members_read_back (E : Env) (cfg : Cfg) (o : EnumObj) (ms : List Me
     (h : parseEnum E cfg o = .ok (ms, nullable)) :
     ms.map (fun m => evalDefault m.2) = (enumTimes o).1.map some ∧ nullable = (enumTimes o).2 := by
   unfold parseEnum at h
-  cases hf : foldMembers E cfg o (enumTimes o).1 0 [] with
+  cases hf : foldMembers E cfg o (enumTimes o).1 0 jsonInit with
   | ok ms' =>
     rw [hf] at h
     simp only [Res.map, Res.ok.injEq, Prod.mk.injEq] at h
@@ -117,29 +118,77 @@ theorem enum_alias_witness :
 
 /-! ### names -/
 
-/-- FULL STRENGTH (C07 with the enum resolver): every member name is an identifier, no keyword, not
-`mro`, does not start with `_`, and the member names of one class are pairwise distinct. -/
+/-- THE CALL SITES of the enum resolver, as read off the source (`Dcg.Gen.EnumSites`): exactly the two reviewed
+callers (`JsonSchemaParser.parse_enum` — JSON Schema and, by inheritance, OpenAPI — and `GraphQLParser.parse_enum`;
+a third caller has to be reviewed and modelled first), the resolver's `get_valid_name` and every caller have the
+recognised shape (the set assigned before the loop is what is passed as `excludes=`, every returned name is added
+to it), and at EVERY site `mro` is reserved: by the resolver itself or by the set the site starts from. -/
+theorem enum_call_sites_reviewed :
+    Dcg.Gen.EnumSites.sites.map (·.name) = ["GraphQLParser.parse_enum", "JsonSchemaParser.parse_enum"] ∧
+    Dcg.Gen.EnumSites.resolverRecognised = true ∧
+    ∀ s ∈ Dcg.Gen.EnumSites.sites, s.recognised = true ∧ s.passesSet = true ∧ s.addsResult = true ∧
+      mro ∈ Dcg.Gen.EnumSites.resolverExcludes ++ s.init := by
+  decide
+
+/-- FULL STRENGTH, every call site: whatever list of entries the loop of a site runs over (any schema object, any
+options with a legal prefix), started from THAT site's excludes, every member name is an identifier, no keyword,
+not `mro`, does not start with `_`, and the member names of one class are pairwise distinct. -/
+theorem enum_names_legal_distinct_every_site (s : Dcg.Gen.EnumSites.Site) (hs : s ∈ Dcg.Gen.EnumSites.sites)
+    (E : Env) (cfg : Cfg) (o : EnumObj) (vs : List JVal) (i : Nat) (ms : List Member)
+    (hp : PrefixOK cfg) (hE : CaseOK E) (h : foldMembers E cfg o vs i s.init = .ok ms) :
+    (∀ m ∈ ms, isIdentifier m.1 = true ∧ isKeyword m.1 = false ∧ m.1 ≠ mro ∧ m.1.head? ≠ some '_') ∧
+    (ms.map (·.1)).Pairwise (· ≠ ·) := by
+  have := fold_names_legal_distinct hp hE s.init (enum_call_sites_reviewed.2.2 s hs).2.2.2 vs i ms h
+  exact ⟨this.1, this.2.1⟩
+
+/-- FULL STRENGTH, the JSON Schema / OpenAPI site (C07 with the enum resolver): every member name is an
+identifier, no keyword, not `mro`, does not start with `_`, and the member names of one class are pairwise distinct. -/
 theorem enum_names_legal_distinct (E : Env) (cfg : Cfg) (o : EnumObj) (ms : List Member) (nullable : Bool)
     (hp : PrefixOK cfg) (hE : CaseOK E) (h : parseEnum E cfg o = .ok (ms, nullable)) :
     (∀ m ∈ ms, isIdentifier m.1 = true ∧ isKeyword m.1 = false ∧ m.1 ≠ mro ∧ m.1.head? ≠ some '_') ∧
     (ms.map (·.1)).Pairwise (· ≠ ·) := by
   unfold parseEnum at h
-  cases hf : foldMembers E cfg o (enumTimes o).1 0 [] with
+  cases hf : foldMembers E cfg o (enumTimes o).1 0 jsonInit with
   | ok ms' =>
     rw [hf] at h
     simp only [Res.map, Res.ok.injEq, Prod.mk.injEq] at h
     obtain ⟨h1, _⟩ := h
     subst h1
-    have := members_names
-      (fun r => isIdentifier r = true ∧ isKeyword r = false ∧ r ≠ mro ∧ r.head? ≠ some '_')
-      (fun src excl r hr => by
-        have hl := Dcg.Props.C07.result_legal E .enum cfg src excl false false hp hE r hr
-        exact ⟨hl.1, hl.2.1, hl.2.2.2 rfl,
-          Dcg.Props.C07.result_no_leading_underscore E .enum cfg src excl false hp hE r hr⟩)
-      _ _ _ _ hf
+    have := fold_names_legal_distinct hp hE jsonInit (by decide) _ _ _ hf
     exact ⟨this.1, this.2.1⟩
   | outOfFuel => rw [hf] at h; simp [Res.map] at h
   | error => rw [hf] at h; simp [Res.map] at h
+
+/-- FULL STRENGTH, the GraphQL site: the members of the Enum class of a GraphQL enum type have legal, distinct
+names (not `mro`, no keyword, no leading `_`) and, read back by Python, exactly the value names of the type, in
+the order in which the loop met them. -/
+theorem graphql_enum_names_and_values (E : Env) (cfg : Cfg) (names : List (List Char)) (ms : List Member)
+    (hp : PrefixOK cfg) (hE : CaseOK E) (h : parseGraphqlEnum E cfg names = .ok ms) :
+    (∀ m ∈ ms, isIdentifier m.1 = true ∧ isKeyword m.1 = false ∧ m.1 ≠ mro ∧ m.1.head? ≠ some '_') ∧
+    (ms.map (·.1)).Pairwise (· ≠ ·) ∧
+    ms.map (fun m => evalDefault m.2) = names.map (fun n => some (.str n)) := by
+  unfold parseGraphqlEnum at h
+  have := fold_names_legal_distinct hp hE graphqlInit (by decide) _ _ _ h
+  refine ⟨this.1, this.2.1, ?_⟩
+  have hd := graphql_fold_defaults names names 0 graphqlInit ms h
+  have e : ms.map (fun m => evalDefault m.2) = (ms.map (·.2)).map evalDefault := by simp
+  rw [e, hd]
+  simp [member_read_back]
+
+/-- the GraphQL member loop terminates and never raises -/
+theorem graphql_enum_total (E : Env) (cfg : Cfg) (names : List (List Char)) (hp : PrefixOK cfg) (hE : CaseOK E) :
+    parseGraphqlEnum E cfg names ≠ .outOfFuel :=
+  fold_terminates hp hE _ _ _
+
+/-- non-vacuity, the shape the seeded change has: GraphQL values that only SANITISE to `mro` (`MRO`, `Mro` under
+snake case; `_mro` with the special prefix removed) next to the literal one -/
+example :
+    parseGraphqlEnum pyEnv { snakeCase := true } [['M', 'R', 'O'], ['M', 'r', 'o'], ['m', 'r', 'o']] =
+      .ok [(['m', 'r', 'o', '_', '1'], .lit ['\'', 'M', 'R', 'O', '\'']), (['m', 'r', 'o', '_', '2'], .lit ['\'', 'M', 'r', 'o', '\'']),
+           (['m', 'r', 'o', '_'], .lit ['\'', 'm', 'r', 'o', '\''])] ∧
+    parseGraphqlEnum pyEnv { removePrefix := true } [['_', 'm', 'r', 'o']] =
+      .ok [(['m', 'r', 'o', '_', '1'], .lit ['\'', '_', 'm', 'r', 'o', '\''])] := by
+  decide +kernel
 
 /-- non-vacuity: reserved and colliding names in one enum (`mro`, a keyword, two entries that sanitise alike) -/
 example : parseEnum pyEnv {} ⟨some strT, [.str ['m', 'r', 'o'], .str ['i', 'f'], .str ['a', ' '], .str ['a', '-']], []⟩ =
@@ -151,34 +200,11 @@ example : parseEnum pyEnv {} ⟨some strT, [.str ['m', 'r', 'o'], .str ['i', 'f'
 theorem enum_members_terminate (E : Env) (cfg : Cfg) (o : EnumObj) (hp : PrefixOK cfg) (hE : CaseOK E) :
     parseEnum E cfg o ≠ .outOfFuel := by
   unfold parseEnum
-  suffices h : ∀ vs i excl, foldMembers E cfg o vs i excl ≠ .outOfFuel by
-    intro hc
-    cases hf : foldMembers E cfg o (enumTimes o).1 0 [] with
-    | ok _ => rw [hf] at hc; simp [Res.map] at hc
-    | outOfFuel => exact h _ _ _ hf
-    | error => rw [hf] at hc; simp [Res.map] at hc
-  intro vs
-  induction vs with
-  | nil => intro i excl h; simp [foldMembers] at h
-  | cons v vs ih =>
-    intro i excl h
-    rw [foldMembers] at h
-    split at h
-    · rename_i src _
-      split at h
-      · rename_i n _
-        cases hr : foldMembers E cfg o vs (i + 1) (n :: excl) with
-        | ok _ => rw [hr] at h; simp [Res.map] at h
-        | outOfFuel => exact ih _ _ hr
-        | error => rw [hr] at h; simp [Res.map] at h
-      · rename_i hn
-        exact Dcg.Props.C07.retry_terminates E .enum cfg src excl false false hp hE hn
-      · cases h
-    · rename_i hs
-      unfold nameSource at hs
-      repeat' split at hs
-      all_goals cases hs
-    · cases h
+  intro hc
+  cases hf : foldMembers E cfg o (enumTimes o).1 0 jsonInit with
+  | ok _ => rw [hf] at hc; simp [Res.map] at hc
+  | outOfFuel => exact fold_terminates hp hE _ _ _ hf
+  | error => rw [hf] at hc; simp [Res.map] at hc
 
 /-! ### literal mode -/
 
